@@ -111,7 +111,8 @@ type upShape struct {
 	Tr      bool   `json:"tr"`
 	Gz      bool   `json:"gz"`
 	Sse     bool   `json:"sse"`
-	Ver     int    `json:"ver"` // origin speaks HTTP/1.0 (10) or HTTP/1.1 (11)
+	Ver     int    `json:"ver"`   // origin speaks HTTP/1.0 (10) or HTTP/1.1 (11)
+	Early   bool   `json:"early"` // the origin answers on seeing the head, without reading the request body
 	Sz      int    `json:"sz"`
 	Hop     bool   `json:"hop"`
 	Cookies bool   `json:"cookies"`
@@ -308,9 +309,15 @@ func newH1Env(seed int64) *h1Env {
 	ot := startOrigin("OT", he.log, &tls.Config{Certificates: []tls.Certificate{cert}}, he.hop.respond)
 	a := startOrigin("A", he.log, nil, he.hop.respond)
 	he.peers = []*peer{o, ot, a}
+	for _, p := range he.peers {
+		p.early = func(head *wireMsg) bool {
+			s := he.hop.get(head.Target)
+			return s != nil && s.up.Early && (len(head.get("Content-Length")) > 0 || len(head.get("Transfer-Encoding")) > 0)
+		}
+	}
 	for _, r := range h1Routes {
 		// a short read-header limit: it must only ever apply to request heads
-		fc := fwdCfg{Name: "fwd", Localhost: "allow", ReadHeaderTimeout: h1HeaderLimit}
+		fc := fwdCfg{Name: "fwd", Localhost: "allow", ReadHeaderTimeout: h1HeaderLimit, Deny: []string{`denied\.test$`}}
 		switch r {
 		case "upstream":
 			fc.Upstream = "http://" + addrA
@@ -680,13 +687,14 @@ func (he *h1Env) headerCase(i int, c *h1HeaderCase) map[string]any {
 
 type h1Exchange struct {
 	Req struct {
-		M    string `json:"m"`
-		Ver  int    `json:"ver"`
-		Copt string `json:"copt"`
-		Body string `json:"body"`
-		Sz   int    `json:"sz"`
-		Ae   string `json:"ae"`
-		Slow bool   `json:"slow"`
+		M       string `json:"m"`
+		Ver     int    `json:"ver"`
+		Copt    string `json:"copt"`
+		Body    string `json:"body"`
+		Sz      int    `json:"sz"`
+		Ae      string `json:"ae"`
+		Slow    bool   `json:"slow"`
+		Refused bool   `json:"refused"`
 	} `json:"req"`
 	Up  upShape `json:"up"`
 	Exp struct {
@@ -728,6 +736,14 @@ func h1Seq(e *env) {
 
 func (he *h1Env) sequence(si int, seq []h1Exchange) map[string]any {
 	route := h1Routes[si%len(h1Routes)]
+	for k := range seq {
+		if seq[k].Req.Refused && (route == "mitm" || route == "handler") {
+			// inside an intercepted session the authority is fixed by the CONNECT; in the http.Handler test variant the
+			// connection belongs to net/http's server, which resets an HTTP/1.0 client whose refused request had a
+			// body (DESIGN.md 14.4): refusals are exercised on the proxy's own connection handling
+			route = []string{"direct", "upstream"}[si%2]
+		}
+	}
 	res := map[string]any{"ok": true, "route": route, "seq": si}
 	var trace []map[string]any
 	fail := func(k int, why string) {
@@ -746,6 +762,7 @@ func (he *h1Env) sequence(si int, seq []h1Exchange) map[string]any {
 	nt := false
 	for k := range seq {
 		ex := &seq[k]
+		overtook := false
 		if cl == nil {
 			var err error
 			if cl, err = he.open(route); err != nil {
@@ -777,7 +794,11 @@ func (he *h1Env) sequence(si int, seq []h1Exchange) map[string]any {
 		// request
 		var reqBody []byte
 		var rb bytes.Buffer
-		fmt.Fprintf(&rb, "%s %s HTTP/1.%d\r\nHost: origin.test\r\nX-Ex: %s\r\n", ex.Req.M, target(route, path), ex.Req.Ver-10, id)
+		if ex.Req.Refused {
+			fmt.Fprintf(&rb, "%s http://denied.test%s HTTP/1.%d\r\nHost: denied.test\r\nX-Ex: %s\r\n", ex.Req.M, path, ex.Req.Ver-10, id)
+		} else {
+			fmt.Fprintf(&rb, "%s %s HTTP/1.%d\r\nHost: origin.test\r\nX-Ex: %s\r\n", ex.Req.M, target(route, path), ex.Req.Ver-10, id)
+		}
 		switch ex.Req.Copt {
 		case "close":
 			rb.WriteString("Connection: close\r\n")
@@ -812,14 +833,26 @@ func (he *h1Env) sequence(si int, seq []h1Exchange) map[string]any {
 		if ex.Req.Slow {
 			cut = len(b) - len(reqBody)/2
 		}
+		early := ex.Up.Early && ex.Req.Body != "none" && !ex.Req.Refused
+		if early && len(reqBody) > 1 {
+			// the origin answers on the head: hold the second half of the body back until the first byte of the
+			// reply is in (or 400 ms have passed), so that the reply overtakes the body
+			cut = len(b) - len(reqBody)/2
+		}
 		if err := cl.raw.send(b[:cut]); err == nil {
 			if ex.Req.Slow {
 				time.Sleep(h1HeaderLimit * 3 / 2)
 			}
+			if early && len(reqBody) > 1 {
+				cl.raw.conn.SetReadDeadline(time.Now().Add(400 * time.Millisecond))
+				_, perr := cl.raw.br.Peek(1)
+				cl.raw.conn.SetReadDeadline(time.Time{})
+				overtook = perr == nil
+			}
 			err = cl.raw.send(b[cut:])
 		}
 		got, err := cl.raw.recv(ex.Req.M, 10*time.Second)
-		tr := map[string]any{"ev": "exchange", "k": k + 1, "id": id}
+		tr := map[string]any{"ev": "exchange", "k": k + 1, "id": id, "early": early, "overtook": overtook}
 		if err != nil {
 			fail(k, "response not parsable / not terminated: "+err.Error())
 			return res
@@ -827,6 +860,33 @@ func (he *h1Env) sequence(si int, seq []h1Exchange) map[string]any {
 		tr["st"], tr["fr"] = got.Status, got.Framing
 		if ex.Exp.Fr != "cl" || ex.Up.Tr || ex.Undone || ex.HeaderOnly || ex.Up.St != 200 {
 			nt = true
+		}
+		if ex.Req.Refused {
+			// the proxy's own answer; no hop ever sees the request, and its body does not become the next request
+			nt = true
+			if got.Status != 403 || !got.has("X-Forwarder-Error") {
+				fail(k, fmt.Sprintf("request for a denied host answered %d (X-Forwarder-Error %v), expected the proxy's 403", got.Status, got.has("X-Forwarder-Error")))
+			}
+			time.Sleep(5 * time.Millisecond)
+			if sc.req != nil {
+				fail(k, "refused request reached the next hop")
+			}
+			selfDelim := got.Framing == "cl" || got.Framing == "chunked" || got.Framing == "none"
+			tr["close"] = !selfDelim || hasToken(got.get("Connection"), "close")
+			if tr["close"] == true {
+				if selfDelim {
+					if closed, extra := cl.raw.expectClosed(2 * time.Second); extra > 0 || !closed {
+						fail(k, fmt.Sprintf("Connection: close announced after the refusal but the connection stays open / %d stray bytes", extra))
+					}
+				}
+				cl.raw.close()
+				cl = nil
+			}
+			trace = append(trace, tr)
+			if res["ok"] != true {
+				return res
+			}
+			continue
 		}
 		// status, reason, identity of the response
 		if got.Status != ex.Up.St {
@@ -919,7 +979,7 @@ func (he *h1Env) sequence(si int, seq []h1Exchange) map[string]any {
 			if sc.req.Method != ex.Req.M {
 				fail(k, "method changed to "+sc.req.Method)
 			}
-			if !bytes.Equal(sc.req.Body, reqBody) {
+			if !early && !bytes.Equal(sc.req.Body, reqBody) {
 				fail(k, fmt.Sprintf("request body differs at the next hop: %d bytes vs %d sent", len(sc.req.Body), len(reqBody)))
 			}
 			if x := sc.req.first("X-Ex"); x != id {
